@@ -81,8 +81,9 @@ def index_terms(exprs, sums, exts):
     return out, apps
 
 
-def ground(ob, ctx, rounds=None, max_terms=60):
+def ground(ob, ctx, rounds=None, max_terms=100):
     rounds = rounds or getattr(ctx, "ground_rounds", 2)
+    max_terms = getattr(ctx, "max_terms", max_terms)
     ctx._grounding = getattr(ctx, "_grounding", 0) + 1
     try:
         return _ground(ob, ctx, rounds, max_terms)
@@ -154,6 +155,18 @@ def _ground(ob, ctx, rounds=2, max_terms=60):
                     terms.setdefault(w.get_id(), w)
         tl = list(terms.values())[:max_terms]
         for qi, qa in enumerate(ob.qassumes or []):
+            if getattr(qa, "arity", 1) == 2:
+                pl = tl[:16]
+                for a_ in pl:
+                    for b_ in pl:
+                        key = (qi, a_.get_id(), b_.get_id())
+                        if key in done:
+                            continue
+                        done.add(key)
+                        f = qa.fn2(a_, b_)
+                        if not isinstance(f, bool):
+                            extra.append(f)
+                continue
             for t in tl:
                 key = (qi, t.get_id())
                 if key in done:
